@@ -283,6 +283,9 @@ func newOnHeapTableIndex(indexBuff []byte, offsetsBuff1 []byte, count uint32, to
 
 func (ti onHeapTableIndex) entrySuffixMatches(idx uint32, h *hash.Hash) (bool, error) {
 	ord := ti.ordinalAt(idx)
+	if ord >= ti.count {
+		return false, ErrInvalidTableFile
+	}
 	o := uint64(ord) * hash.SuffixLen
 	b := ti.suffixes[o : o+hash.SuffixLen]
 	return bytes.Equal(h[hash.PrefixLen:], b), nil
@@ -290,6 +293,9 @@ func (ti onHeapTableIndex) entrySuffixMatches(idx uint32, h *hash.Hash) (bool, e
 
 func (ti onHeapTableIndex) indexEntry(idx uint32, a *hash.Hash) (entry indexEntry, err error) {
 	prefix, ord := ti.tupleAt(idx)
+	if ord >= ti.count {
+		return indexResult{}, ErrInvalidTableFile
+	}
 
 	if a != nil {
 		binary.BigEndian.PutUint64(a[:], prefix)
